@@ -125,6 +125,12 @@ def sameMessage (f e : Pub) : Bool :=
 
 def listSet {α} (l : List α) (i : Nat) (a : α) : List α := l.set i a
 
+/-- first position `a ≥ start`, `a < bound`, whose entry carries forward `f` (`l` = the history from `start` on) -/
+def findFrom (l : List Pub) (start bound : Nat) (f : Pub) : Option Nat :=
+  match l with
+  | [] => none
+  | e :: rest => if start ≥ bound then none else if sameMessage f e then some start else findFrom rest (start + 1) bound f
+
 /-- candidates for one configuration: (new configuration, sub index, abs offset) -/
 def candidates (m : MonState) (lm : LinkMon) (cfg : List Nat) (f : Pub) : List (List Nat × Nat × Nat) :=
   (lm.subs.zipIdx).flatMap fun (s, i) =>
@@ -139,8 +145,8 @@ def candidates (m : MonState) (lm : LinkMon) (cfg : List Nat) (f : Pub) : List (
         | none => []
       else []
     let later : List (List Nat × Nat × Nat) :=
-      match ((h.zipIdx).drop ptr).find? (fun (e, a) => a < bound && sameMessage f e) with
-      | some (_, a) => [(listSet cfg i (a + 1), i, a)]
+      match findFrom (h.drop ptr) ptr bound f with
+      | some a => [(listSet cfg i (a + 1), i, a)]
       | none => []
     match s.group with
     | none =>
